@@ -149,6 +149,26 @@ func runC17(w *W) {
 			if want, app := p.ref(); app && want != got {
 				w.Viol("C17:"+p.name+":"+md, fmt.Sprintf("%s on %s = %v, table membership says %v", p.name, where, got, want), d.Ymd)
 			}
+			// leap months: the definitions list (month, day) pairs and do not mention leap months, so either reading is
+			// accepted (the leap month counts as the month it repeats, or not at all) - but a day of a leap month can be in
+			// the class only if the same day of the month it repeats is listed
+			if !nonLeap && got {
+				amd := fmt.Sprintf("%d-%d", am, ld)
+				var tbl []string
+				switch p.name {
+				case "Tao.IsDaySanHui":
+					tbl = TaoUtil.SAN_HUI
+				case "Tao.IsDaySanYuan":
+					tbl = TaoUtil.SAN_YUAN
+				case "Tao.IsDayWuLa":
+					tbl = TaoUtil.WU_LA
+				case "Foto.IsDayZhaiGuanYin":
+					tbl = FotoUtil.DAY_ZHAI_GUAN_YIN
+				}
+				if tbl != nil && !inList(tbl, amd) {
+					w.Viol("C17:"+p.name+":leap:"+md, fmt.Sprintf("%s on %s (leap month) = true, but day %s is not listed for the month it repeats", p.name, where, amd), d.Ymd)
+				}
+			}
 		}
 		// six fasting days: also a function of the month length
 		six := foto.IsDayZhaiSix()
